@@ -6,7 +6,7 @@ PROPS["C17"] = dict(
     harness="rc_sorted",
     builds=[dict(harness="rc_sorted")],
     level="exploration",
-    quick=dict(cases=10000, shards=1, max_size=100, timeout=900),
+    quick=dict(cases=15000, shards=4, max_size=100, timeout=900),
     thorough=dict(cases=100000, shards=16, max_size=200, timeout=3000),
     rule="case = sequence of 0..40 (max_size 100; 0..80 thorough) typed insert/clear calls on a fresh SortedPipeline or "
     "SimplePipeline, every inserted handler a distinct recording object; identity of handlers() and execution order are "
@@ -39,7 +39,7 @@ MANIFEST_META = dict(
 PROPS["C17"].update(
     engine="rc",
     technique="property-based testing (rapidcheck): generated call sequences vs a five-list reference model, checked after every call",
-    level_text="Generated search: 10 000 (quick) / 1.6 M (thorough) call sequences, each checked after every call for identity of handlers() and for execution order against an independent model; failures shrink to a minimal call sequence. Not a proof: sequences longer than ~80 calls and handler objects shared between calls are not explored.",
+    level_text="Generated search: 60 000 (quick) / 1.6 M (thorough) call sequences, each checked after every call for identity of handlers() and for execution order against an independent model; failures shrink to a minimal call sequence. Not a proof: sequences longer than ~80 calls and handler objects shared between calls are not explored.",
     level_note="Trusted: the five-list model in harness/rc_sorted.cpp; g++/ASan build; null arguments modelled as no-ops.",
 )
 
@@ -48,7 +48,7 @@ PROPS["C01"] = dict(
     builds=[dict(harness="rc_pipeline")],
     engine="rc",
     level="exploration",
-    quick=dict(cases=6000, shards=2, max_size=100, timeout=900),
+    quick=dict(cases=10000, shards=6, max_size=100, timeout=900),
     thorough=dict(cases=40000, shards=16, max_size=200, timeout=3000),
     rule="case = recursively generated handler tree (attribute handlers, function filters, formatters incl. empty/null output, "
     "generic function handlers with set/remove/format/unformat programs, recording sinks, SeqNumberAttr, DuplicateFilter, null entries "
@@ -70,7 +70,7 @@ PROPS["C16"] = dict(
     builds=[dict(harness="rc_filters")],
     engine="rc",
     level="exploration",
-    quick=dict(cases=4000, shards=2, max_size=100, timeout=900),
+    quick=dict(cases=6000, shards=6, max_size=100, timeout=900),
     thorough=dict(cases=50000, shards=16, max_size=200, timeout=3000),
     rule="case = pool of 1..5 texts (empty, null, case/whitespace/normalisation variants, texts around the regexp menu, generated Unicode) "
     "and a sequence of 1..200 messages drawn from it with runs, types uniform, 30% carrying a formatted text different from the raw text; "
@@ -193,7 +193,7 @@ _ROT_COMMON = dict(
     builds=[dict(harness="rc_rot", extra_sources=("common/shim.cpp",))],
     engine="rc",
     level="exploration",
-    quick=dict(cases=1500, shards=4, max_size=100, timeout=1200),
+    quick=dict(cases=1500, shards=8, max_size=100, timeout=1200),
     thorough=dict(cases=15000, shards=16, max_size=200, timeout=3400),
 )
 _ROT_DOMAIN = (
@@ -258,7 +258,7 @@ PROPS["C10"] = dict(
     builds=[dict(harness="rc_crash", extra_sources=("common/shim.cpp",))],
     engine="rc",
     level="fault_enumeration",
-    quick=dict(cases=12, shards=8, max_size=100, timeout=1500),
+    quick=dict(cases=14, shards=16, max_size=100, timeout=1500),
     thorough=dict(cases=100, shards=16, max_size=100, timeout=3400),
     rule="scenario = configuration (L in {0,8,12,20,40}, N in {-1,0,2,3,4}, options, file name) + prefix history (writes, day changes, restarts) "
     "leaving a non-empty active file and 0..n rotated files + a triggering write on a fresh sink that rotates (size, day change or startup) + "
@@ -286,7 +286,7 @@ PROPS["C20"] = dict(
     builds=[],
     engine="hyp",
     level="exploration",
-    quick=dict(cases=150, shards=2, max_size=100, timeout=900),
+    quick=dict(cases=250, shards=4, max_size=100, timeout=900),
     thorough=dict(cases=400, shards=12, max_size=100, timeout=3000),
     rule="case = an edit of the scratch copy of the tree: a unique preprocessor line '#define VERIFMARK_<hex> 1' inserted at a generated "
     "(file under src/qtlogger, line position), or a unique comment token appended to an existing line; evaluated by running the tree's own "
@@ -299,7 +299,7 @@ PROPS["C20"] = dict(
     ],
     floors={"kind_insert": 0.3, "kind_append": 0.1},
     technique="property-based testing (Hypothesis): differential of committed header vs generator output, metamorphic marker edits at generated (file, line) positions, independent line-multiset containment oracle",
-    level_text="Byte-for-byte differential of the committed header against the tree's generator on a scratch copy, an independent multiset oracle that does not use the generator, and generated marker edits (300 quick / 4 800 + all files thorough) each required to appear exactly once and to be removable again. Not a proof: it speaks about the current tree and the sampled edit positions.",
+    level_text="Byte-for-byte differential of the committed header against the tree's generator on a scratch copy, an independent multiset oracle that does not use the generator, and generated marker edits (1 000 quick / 4 800 + all files thorough) each required to appear exactly once and to be removable again. Not a proof: it speaks about the current tree and the sampled edit positions.",
     level_note="Trusted: python3, the line filter in py/hyp_c20.py (mirrors the four textual substitutions the generator documents).",
 )
 
@@ -340,7 +340,7 @@ PROPS["C11"] = dict(
     builds=[dict(kind="rc", harness="runner_fatal")],
     engine="hyp",
     level="exploration",
-    quick=dict(cases=70, shards=4, max_size=100, timeout=1500),
+    quick=dict(cases=90, shards=8, max_size=100, timeout=1500),
     thorough=dict(cases=150, shards=16, max_size=100, timeout=3400),
     confirm_replays=0,
     rule="case = scenario executed by a child process that must die by SIGABRT: configuration style (fluent format+sendToFile / fluent with sibling sub-pipelines and the "
@@ -356,7 +356,7 @@ PROPS["C11"] = dict(
     ],
     floors={"unflushed_tail_nonempty": 0.5, "rotating_sink": 0.3, "rotated_files_present": 0.1, "fatal_from_worker_thread": 0.2, "contention_at_fatal": 0.2},
     technique="property-based testing (Hypothesis) with process-death injection: generated logging scenarios run in a child that aborts on the fatal message; files read back and compared with the expected record sequence",
-    level_text="Generated scenarios (280 quick / 2 400 thorough child processes) ending in a real abort(); the files left behind must hold every preceding message once, per thread in order, and the fatal message after them. Not a proof; the crash point is always the abort that follows the fatal message handler.",
+    level_text="Generated scenarios (720 quick / 2 400 thorough child processes) ending in a real abort(); the files left behind must hold every preceding message once, per thread in order, and the fatal message after them. Not a proof; the crash point is always the abort that follows the fatal message handler.",
     level_note="Trusted: harness/runner_fatal.cpp (scenario executor), the line decoder in py/hyp_c11.py, Python's gzip.",
 )
 
@@ -391,7 +391,7 @@ PROPS["C02"] = dict(
     builds=[dict(harness="rc_concurrent")],
     engine="rc",
     level="exploration",
-    quick=dict(cases=40, shards=4, max_size=100, timeout=1500),
+    quick=dict(cases=80, shards=8, max_size=100, timeout=1500),
     thorough=dict(cases=320, shards=16, max_size=200, timeout=3400),
     confirm_replays=3,
     rule="case = schedule shape: subject (Logger installed as Qt message handler with producers using the qDebug/qInfo/qWarning/qCritical and qC* macros; bare "
@@ -443,7 +443,7 @@ PROPS["C19"] = dict(
     builds=[dict(kind="rc", harness="runner_config")],
     engine="hyp",
     level="exploration",
-    quick=dict(cases=300, shards=8, max_size=100, timeout=1700),
+    quick=dict(cases=500, shards=10, max_size=100, timeout=1700),
     thorough=dict(cases=2500, shards=16, max_size=100, timeout=3400),
     rule="case = one of: (ini) a subset of the INI keys filter_rules (1..4 ordered rules over the categories default/app.core/app.net/db with wildcards and type suffixes), regexp_filter (menu of 5), "
     "message_pattern (menu of 4 incl. type conditionals; absent = pretty layout), stdout, stdout_color, stderr, stderr_color, platform_std_log, path, max_file_size, max_file_count, rotate_on_startup, "
@@ -461,6 +461,6 @@ PROPS["C19"] = dict(
     ],
     floors={"mode_ini": 0.2, "mode_oneline": 0.08, "mode_history": 0.3, "history_two_installs": 0.15, "file_output": 0.2},
     technique="property-based testing (Hypothesis): generated configurations and message streams executed end to end in a child process and compared with outputs composed from independent oracles (glob rules, regexp predicates, pattern renderers); model-based testing of install/restore histories",
-    level_text="Generated INI key sets / configure() arguments with message streams, executed end to end (2 400 quick / 40 000 thorough child processes), every output compared with the composed expectation; install/restore histories against a handler model after every operation. Not a proof; pattern/regexp/rule menus are small on purpose (their own semantics are C12/C15/C16).",
+    level_text="Generated INI key sets / configure() arguments with message streams, executed end to end (5 000 quick / 40 000 thorough child processes), every output compared with the composed expectation; install/restore histories against a handler model after every operation. Not a proof; pattern/regexp/rule menus are small on purpose (their own semantics are C12/C15/C16).",
     level_note="Trusted: harness/runner_config.cpp, the oracles in py/hyp_c19.py (glob matcher, renderers, file reader).",
 )
